@@ -412,7 +412,7 @@ func (p *proxyConn) handle() error {
 }
 
 func (p *proxyConn) writeErrorResponse(req *http.Request, err error) error {
-	res := maybeConnectErrorResponse(err)
+	res := maybeConnectErrorResponse(req, err)
 	modify := p.modifyResponse
 	if res == nil {
 		res = p.errorResponse(req, err)
